@@ -435,3 +435,49 @@ def grad_mode_history(ck, prop):
                              "gradient_depends_on_an_earlier_call_in_another_grad_mode", dict(wit, result=tag))
             ck.mark("gradmode/" + dn)
     ck.require("gradmode/f64", "gradmode/f32")
+
+
+def lifecycle(ck, props=ALL_PROPS):
+    """Operands that went through copy.deepcopy / pickle / torch.save+load are the same elements: every operation gives the same
+    value and the same type as on the original (used by C06)."""
+    import io
+    rng = ck.rng("lifecycle")
+
+    def via(kind, t):
+        if kind == "deepcopy":
+            return copy.deepcopy(t)
+        if kind == "pickle":
+            return pickle.loads(pickle.dumps(t))
+        b = io.BytesIO()
+        torch.save(t, b)
+        b.seek(0)
+        return torch.load(b, weights_only=False)
+    for prop in props:
+        for dn in ("f64", "f32"):
+            dtype = lie.DT[dn]
+            u = lie.u_of(dtype)
+            for (name, kx, kaux, f) in ops_for(prop):
+                shape = (3,)
+                X = _fresh(kx, _make(kx, rng, shape, dtype))
+                aux = _aux_for(kaux, rng, shape, dtype)
+                wit = {"op": name, "dtype": dn}
+                ok0, ref = ck.call("lifecycle", f"{name}/{dn}", name, f, X, aux, witness=wit)
+                if not ok0:
+                    continue
+                for kind in ("deepcopy", "pickle", "save-load"):
+                    for who in ("operand", "second operand"):
+                        if who == "second operand" and not isinstance(aux, pp.LieTensor):
+                            continue
+                        X2, a2 = (via(kind, X), aux) if who == "operand" else (X, via(kind, aux))
+                        w2 = dict(wit, copied=who, through=kind)
+                        ok, r = ck.call("lifecycle", f"{name}/{dn}/{kind}", name, f, X2, a2, witness=w2)
+                        ck.count("lifecycle", f"{name}/{dn}/{kind}", key=(name, dn, kind, who))
+                        if not ok:
+                            continue
+                        same_type = type(r) is type(ref) and (not isinstance(ref, pp.LieTensor) or r.ltype.__class__ is ref.ltype.__class__)
+                        ck.check(same_type, "lifecycle", f"{name}/{dn}/{kind}", name, "result_type_differs_for_a_copied_operand", w2)
+                        if same_type:
+                            ck.ratio("lifecycle", f"{name}/{dn}/{kind}", _close(_vals(r), _vals(ref), u), 1.0, name,
+                                     "result_differs_for_a_copied_operand", w2)
+                        ck.mark("lifecycle/" + kind)
+    ck.require("lifecycle/deepcopy", "lifecycle/pickle", "lifecycle/save-load")
